@@ -93,7 +93,7 @@ class Fidelity(O.Monitor):
                 probs[-1] = probs.get(-1, 0.0) + 1.0 - sum(x["probs"])
                 self.check_prob(rep, nid, cname, dest, probs)
             elif x["r"] in ("jsq", "lb"):
-                self.check_shortest(rep, nid, x["r"], x["dests"], x.get("tie", "random"), dest, snap)
+                self.check_shortest(rep, nid, x["r"], x["dests"], x.get("tie", "random"), dest, snap, how=kind)
             elif x["r"] == "cycle":
                 kpos = self.cycle_pos[(cname, nid)]
                 self.cycle_pos[(cname, nid)] += 1
@@ -153,13 +153,20 @@ class Fidelity(O.Monitor):
         if not (probs.get(dest, 0) > 0):
             rep("transition-of-probability-zero", {"node": nid, "class": cname, "went": dest, "probs": {str(k): v for k, v in probs.items()}})
 
-    def check_shortest(self, rep, nid, kind, dests, tie, dest, snap):
+    def check_shortest(self, rep, nid, kind, dests, tie, dest, snap, how=None):
         if kind == "jsq":
             size = {d: snap[d][0] - snap[d][1] for d in dests}
         else:
             size = {d: snap[d][0] for d in dests}
         m = min(size.values())
         mins = [d for d in dests if size[d] == m]
+        if how == "reroute":
+            self.activity["reroute_balanced"] = self.activity.get("reroute_balanced", 0) + 1
+            for d in mins:
+                nd = self.spec["nodes"][d - 1]
+                if len(mins) < len(dests) and nd.get("cap", "inf") != "inf" and nd["servers"]["kind"] == "int" and snap[d][0] >= nd["servers"]["c"] + nd["cap"]:
+                    self.activity["reroute_shortest_is_full"] = self.activity.get("reroute_shortest_is_full", 0) + 1
+                    break
         if len(dests) >= 2:
             self.activity["multi_choice_decisions"] += 1
         if len(set(size.values())) > 1:
